@@ -641,10 +641,35 @@ def rule_PL6(ctx, tier):
     if len(keepers) != 1:
         rr.fail("retain:shape", "expected one `retriers.retain(..)` in manage_retry, found %d" % len(keepers))
     else:
-        tab = {}
+        # other boolean inputs of the predicate (a call the state does not determine, e.g. a look-up in another map) are tried
+        # both ways: the table must come out the same whatever they answer
+        kb = P.bodies[keepers[0]]
+        extra_names = []
+
+        def with_env(base, env):
+            def oracle(names, args, body, t):
+                r_ = base(names, args, body, t)
+                if r_ is not None:
+                    return r_
+                dest = t.get("dest") or []
+                if len(dest) == 1 and body.locals[dest[0]]["ty"] == "bool":
+                    n_ = sorted(names)[0] if names else "?"
+                    if n_ not in extra_names:
+                        extra_names.append(n_)
+                    return ("bool", env.get(n_, False))
+                return None
+            return oracle
+        eval_fn(ctx, keepers[0], with_env(state_oracle("Running", True), {}))
+        envs = [dict(zip(extra_names, vals_)) for vals_ in itertools.product((False, True), repeat=min(len(extra_names), 3))] or [{}]
+        tab, varies = {}, set()
         for st_, pe_ in STATES:
-            v_ = eval_fn(ctx, keepers[0], state_oracle(st_, pe_))
-            tab[(st_, pe_)] = v_[1] if v_ and v_[0] == "bool" else None
+            outs = set()
+            for env in envs:
+                v_ = eval_fn(ctx, keepers[0], with_env(state_oracle(st_, pe_), env))
+                outs.add(v_[1] if v_ and v_[0] == "bool" else None)
+            if len(outs) > 1:
+                varies.add((st_, pe_))
+            tab[(st_, pe_)] = next(iter(outs)) if len(outs) == 1 else ("depends on " + ", ".join(shortfn(n_) for n_ in extra_names))
         want_ = {k_: (k_[0] in ("Running", "Idle") or k_ == ("Stopped", True)) for k_ in tab}
         if any(v_ is None for v_ in tab.values()):
             rr.fail("retain:table-undecided", "cannot fold the retain predicate of manage_retry over the retrier states (%s)" % tab, where=P.bodies[keepers[0]].span)
